@@ -891,7 +891,8 @@ static sexp analyze_lambda (sexp ctx, sexp x, int depth) {
       tmp = sexp_cons(ctx3, sexp_cdaar(tmp), sexp_cdar(tmp));
       tmp = sexp_cons(ctx3, SEXP_VOID, tmp);
       sexp_pair_source(tmp) = sexp_pair_source(sexp_caar(ls));
-      value = analyze_lambda(ctx3, tmp, depth);
+      value = (depth < SEXP_MAX_ANALYZE_DEPTH) ? analyze_lambda(ctx3, tmp, depth+1)
+        : sexp_compile_error(ctx3, "SEXP_MAX_ANALYZE_DEPTH exceeded", tmp);
     } else {
       name = sexp_caar(tmp);
       value = analyze(ctx3, sexp_cadar(tmp), depth, 0);
